@@ -108,8 +108,11 @@ def run(tier, seed):
                 elif mode == 'bad':
                     size = total + 10000
                     good = enc_entry((1, 2, 0x4654, 5, 6, bytes(rng.randrange(256) for _ in range(rng.choice([0, 5, 8]))), b''))
-                    kind = rng.choice(['oversize', 'trailer', 'truncated'])
-                    if kind == 'oversize':
+                    kind = rng.choice(['oversize', 'oversize_consistent', 'trailer', 'truncated'])
+                    if kind == 'oversize_consistent':
+                        # more than 1024 data bytes, everything else in order (length field, padding, trailing size word)
+                        bad = enc_entry((1, 2, 0x4654, 5, 6, bytes(rng.randrange(256) for _ in range(rng.choice([1025, 1026, 1028, 2000]))), b''))
+                    elif kind == 'oversize':
                         bad = good[:4] + struct.pack('>H', rng.choice([1025, 2000, 65535])) + good[6:] + bytes(1100)
                     elif kind == 'trailer':
                         bad = good[:-4] + struct.pack('>I', (len(good) + rng.choice([1, 4, 2 ** 31])) % 2 ** 32)
@@ -164,8 +167,11 @@ def run(tier, seed):
             _, name, path, hdr, es, trailing, mode = m
             data = r.bytes()
             model, spec = r.lines(), r.lines()
-            real = tr.parse_trace_data(memoryview(data), path)
-            if len(opt_calls) < OPT_N and rng.random() < 0.1:
+            try:
+                real = tr.parse_trace_data(memoryview(data), path)
+            except Exception as e:  # noqa  -- the decoder has no error path of its own: an exception is an outcome
+                real = ['<%s: %s>' % (type(e).__name__, str(e)[:100])]
+            if len(opt_calls) < OPT_N + 20 and rng.random() < (0.6 if mode == 'bad' else 0.1):
                 opt_calls.append(('trace', data, [path], real))
             ck.case(key=(name, data) if len(real) > 7 else None,
                     sample={'strings': name, 'mode': mode, 'size': hdr[6], 'entries': [(e[3], len(e[5]), hex(e[2])) for e in es[:4]]})
